@@ -1109,13 +1109,13 @@ def main(R):
         t0 = time.time()
         POOL_TIMEOUT[0] = 900 if R.quick else 1500
         try:
-            stream_reflection(R, RF, 6 if R.quick else 25, fixtures)
+            stream_reflection(R, RF, 6 if R.quick else 20, fixtures)
         except TimeoutError:
             R.broken.append("reflection stream: worker pool timed out (machine overloaded?)")
         t1 = time.time()
         if ok:
             try:
-                stream_histories(R, 2000 if R.quick else 40000, 32 if R.quick else 50)
+                stream_histories(R, 2000 if R.quick else 12000, 32 if R.quick else 45)
             except TimeoutError:
                 R.broken.append("history stream: worker pool timed out (machine overloaded?)")
         t2 = time.time()
